@@ -67,21 +67,26 @@ def reuse_case(idx, payload):
     return res
 
 
-def multifile_case(idx, payload):
-    """a toolbox generated from SEVERAL interface files (each with its own namespaces; class names repeat across files in
-    different namespaces): the dispatch table must be consistent for the union"""
-    import streams
-    seed, _ = payload
+def multifile_texts(seed, idx, extra_kinds=('cls', 'cls', 'ns')):
     import random
+    import streams
     rng = random.Random(seed * 1000003 + idx + 424242)
     kw = dict(matlab_safe=True, typedef_same_ns=True, p_virtual=0.4, class_pool=["Pose", "Node"], p_suffix=0.0,
-              extra_kinds=['cls', 'cls', 'ns'], max_decls=3)
+              extra_kinds=list(extra_kinds), max_decls=3)
     pools = [["geometry", "sensors"], ["nav", "sensors2"], ["lin", "geo2"]]
     texts = []
     for k in range(rng.randint(2, 3)):
         _, _, t = streams.gen_coherent(seed + 31 + k, idx, dict(kw, ns_pool=pools[k], mnames=["f%d" % k, "g%d" % k, "h%d" % k]), style='space')
         # every file keeps its declarations in a namespace of its own, so that equal simple names never denote the same entity
         texts.append("namespace %s {\n%s\n}\n" % (["alpha", "beta", "gamma"][k], t.rstrip()))
+    return texts
+
+
+def multifile_case(idx, payload):
+    """a toolbox generated from SEVERAL interface files (each with its own namespaces; class names repeat across files in
+    different namespaces): the dispatch table must be consistent for the union"""
+    seed, _ = payload
+    texts = multifile_texts(seed, idx)
     res = dict(idx=idx, text="\x1e".join(texts), bad=None, ran=False)
     st, out = impl_matlab(texts, "mymod", [], False)
     if st != "ok":
@@ -106,6 +111,82 @@ def multifile_case(idx, payload):
             res["bad"] = "the .m files of the toolbox are not those of the single files: missing %s, unexpected %s" % (
                 sorted(want - got)[:4], sorted(got - want)[:4])
     return res
+
+
+def shared_dir_case(idx, payload):
+    """TWO modules (different module names, disjoint entity names, one fresh MatlabWrapper each) generated one after the other
+    into ONE toolbox directory — how a project with several wrapped libraries is installed: afterwards each gateway must
+    still be dispatch-consistent with the .m files of the directory (no case left without a call site), and the directory
+    must hold exactly the files of the two separately generated toolboxes"""
+    import os
+    import shutil
+    import tempfile
+    import streams
+    from common import ensure_matlab_tpl, classify_exc
+    ensure_matlab_tpl()
+    from gtwrap.matlab_wrapper import MatlabWrapper
+    seed, _ = payload
+    kw = dict(matlab_safe=True, typedef_same_ns=True, p_virtual=0.5)
+    _, _, t1 = streams.gen_coherent(seed + 51, idx, dict(kw, class_pool=["Aa", "Bb", "Cc", "Dd"], ns_pool=["n1", "n2"], mnames=["f1", "g1", "h1"]), style='space')
+    _, _, t2 = streams.gen_coherent(seed + 52, idx, dict(kw, class_pool=["Ee", "Ff", "Gg", "Hh"], ns_pool=["m1", "m2"], mnames=["f2", "g2", "h2"]), style='space')
+    mods = [("firstmod", t1), ("secondmod", t2)]
+    res = dict(idx=idx, text=t1 + "\x1e" + t2, bad=None, ran=False)
+    singles = [impl_matlab([t], m, [], False) for m, t in mods]
+    if any(s_[0] != "ok" for s_ in singles):
+        return res
+    if set(singles[0][1]) & set(singles[1][1]):
+        return res          # the generator gave both modules an entity of the same name: not the situation studied here
+    d = tempfile.mkdtemp(prefix="verif_c05s_")
+    try:
+        o = os.path.join(d, "toolbox")
+        os.makedirs(o)
+        for k, (m, t) in enumerate(mods):
+            p = os.path.join(d, "s%d.i" % k)
+            open(p, "w", encoding="utf-8").write(t)
+            try:
+                MatlabWrapper(module_name=m, ignore_classes=[], use_boost_serialization=False).wrap([p], path=o)
+            except Exception as e:  # noqa
+                res["ran"] = True
+                res["bad"] = "module %s is accepted alone but rejected when the toolbox directory already holds another module (%s)" % (m, classify_exc(e))
+                return res
+        files = {}
+        for root, _, fs in os.walk(o):
+            for fn in fs:
+                files[os.path.relpath(os.path.join(root, fn), o)] = open(os.path.join(root, fn), encoding="utf-8").read()
+        res["ran"] = True
+        for m, _ in mods:
+            p = pj.dispatch_problems(files, m)
+            if p:
+                res["bad"] = "module %s: %s" % (m, p[0])
+                return res
+        want = dict(singles[0][1])
+        want.update(singles[1][1])
+        if files != want:
+            miss = sorted(set(want) - set(files))
+            extra = sorted(set(files) - set(want))
+            diff = sorted(k for k in set(want) & set(files) if want[k] != files[k])
+            res["bad"] = "the shared toolbox is not the union of the two toolboxes: missing %s, unexpected %s, different %s" % (miss[:4], extra[:4], diff[:4])
+    finally:
+        shutil.rmtree(d, ignore_errors=True)
+    return res
+
+
+def shared_dir_stream(ctx, n, off=0, collect=True):
+    first = None
+    for r in fw.run_cases(shared_dir_case, [(ctx.seed + off, None)] * n):
+        if "crash" in r:
+            raise RuntimeError(r["crash"])
+        if collect:
+            ctx.case("shareddir" + r["text"], nontrivial=r["ran"], sample=None)
+            ctx.count("shared_dir_toolboxes" if r["ran"] else "shared_dir_skipped")
+        if r["bad"]:
+            v = dict(what="two modules generated into one toolbox directory: " + r["bad"], modules=r["text"].split("\x1e"))
+            first = first or v
+            if collect:
+                ctx.spec_fail(v["what"], modules=v["modules"])
+        elif collect and r["ran"]:
+            ctx.traces_validated += 1
+    return first
 
 
 def multifile_stream(ctx, n, off=0, collect=True):
@@ -162,6 +243,7 @@ def main(ctx):
                         (dict(mnames=["Create", "Count", "f"], extra_member_kinds=['static', 'static'], max_members=6, p_default=0.6), 0.3)])
     reuse_stream(ctx, ctx.scale(50, 600))
     multifile_stream(ctx, ctx.scale(60, 800))
+    shared_dir_stream(ctx, ctx.scale(40, 500))
     for e in ctx.known:
         w = e["witness"]
         st, out = impl_matlab([w["input"]], "mymod", [], False)
@@ -172,7 +254,7 @@ def main(ctx):
                 ctx.spec_fail("a defect recorded as fixed is back: " + e["what"], **w)
         elif still:
             ctx.known_hit(e)
-    return fw.finish(ctx, search=lambda c: search(c) or reuse_stream(c, c.scale(100, 600), off=3, collect=False) or multifile_stream(c, c.scale(60, 400), off=5, collect=False), assumptions=["hand-written model of matlab_wrapper/wrapper.py, tied byte-exactly on generated inputs"])
+    return fw.finish(ctx, search=lambda c: search(c) or reuse_stream(c, c.scale(100, 600), off=3, collect=False) or multifile_stream(c, c.scale(60, 400), off=5, collect=False) or shared_dir_stream(c, c.scale(40, 300), off=7, collect=False), assumptions=["hand-written model of matlab_wrapper/wrapper.py, tied byte-exactly on generated inputs"])
 
 
 def replay(ctx, path):
